@@ -134,3 +134,11 @@ package parse
 //@   loop 0
 //@     invariant changeFailures == old(changeFailures)
 //@     invariant fresh(prog.Changes.arr) && len(prog.Changes) == len(changes)
+
+//@ func Parse(fset, filename, contents) (prog, err)
+//@   requires fset != nil
+//@   at call (*parse.parser).parseProgram assert [C13] the-whole-text-under-its-own-name: arg0.fset == fset && arg1 == filename && arg2 == contents
+//@   ensures [C13] prog == ret("(*parse.parser).parseProgram", 0, 0) && err == ret("(*parse.parser).parseProgram", 0, 1)
+//@   ensures-assumed err == nil ==> prog != nil && forall k int {prog.Changes[k]} :: 0 <= k && k < len(prog.Changes) ==> wfParsedChange(as("*github.com/uber-go/gopatch/internal/parse.Change", prog.Changes[k]))
+//@ func newParser
+//@   inline
